@@ -429,3 +429,157 @@ def campaign(ck, prop, n, fixed=(), break_bias=False, workers=8):
             if prop in V:
                 found.append((o, V[prop]))
     return found, known
+
+
+# ---------------------------------------------------------------------------------------------- watcher filter scenario (C16)
+
+def filter_scenario(rng, n_ops=10, tag='wf'):
+    """One target watching `src` with extensions [txt] (and one without filter watching `any`); random file operations of
+    relevant and irrelevant kinds through the real inotify watcher. A relevant operation must start a run (we wait for it);
+    an irrelevant one must not (the run count is unchanged after a quiet period)."""
+    import subprocess
+    d = vf.scratch_dir(tag)
+    os.makedirs(os.path.join(d, 'src', 'sub'))
+    os.makedirs(os.path.join(d, 'any'))
+    os.makedirs(os.path.join(d, 'elsewhere'))
+    trace = os.path.join(d, 'trace')
+    open(trace, 'w').close()
+    open(os.path.join(d, 'src', 'a.txt'), 'w').write('a0\n')
+    open(os.path.join(d, 'src', 'sub', 'b.txt'), 'w').write('b0\n')
+    open(os.path.join(d, 'src', 'c.dat'), 'w').write('c0\n')
+    open(os.path.join(d, 'any', 'x'), 'w').write('x0\n')
+    with open(os.path.join(d, 'zinoma.yml'), 'w') as f:
+        f.write('targets:\n  filt:\n    input:\n      - paths: [src]\n        extensions: [txt]\n'
+                '    build: echo "start filt $$" >> %s\n'
+                '  anyf:\n    input:\n      - paths: [any]\n    build: echo "start anyf $$" >> %s\n' % (trace, trace))
+    e = dict(os.environ)
+    e.pop('ZINOMA_VERIF', None)
+    errf = open(os.path.join(d, 'stderr'), 'w+')
+    proc = subprocess.Popen([vf.ZINOMA, '--watch', 'filt', 'anyf'], cwd=d, env=e, stdout=errf, stderr=subprocess.STDOUT,
+                            start_new_session=True)
+    V = {}
+    log = []
+
+    def runs(t):
+        return len([1 for l in open(trace).read().splitlines() if l.startswith('start %s ' % t)])
+
+    def wait_runs(t, n, timeout):
+        t0 = time.time()
+        while time.time() - t0 < timeout:
+            if runs(t) >= n:
+                return True
+            if proc.poll() is not None:
+                return False
+            time.sleep(0.005)
+        return runs(t) >= n
+
+    def quiet(seconds):
+        c0 = (runs('filt'), runs('anyf'))
+        t0 = time.time()
+        while time.time() - t0 < seconds:
+            time.sleep(0.05)
+            c1 = (runs('filt'), runs('anyf'))
+            if c1 != c0:
+                c0 = c1
+                t0 = time.time()
+        return c0
+    try:
+        if not (wait_runs('filt', 1, 10) and wait_runs('anyf', 1, 10)):
+            V.setdefault('C16', []).append('initial pass did not run both targets')
+        quiet(1.0)
+        seq = 0
+        relevant_ops = ['modify', 'create', 'rename_over', 'move_in', 'rename_away', 'delete', 'modify_sub', 'nonutf8_then_modify',
+                        'any_modify', 'any_create_tmpname_not', 'any_nonutf8']
+        irrelevant_ops = ['other_ext', 'tilde', 'swp', 'zinoma_dir', 'outside', 'dat_rename', 'any_tilde', 'any_swp', 'any_zinoma']
+        for _ in range(n_ops):
+            seq += 1
+            op = rng.choice(relevant_ops if rng.random() < 0.55 else irrelevant_ops)
+            before = (runs('filt'), runs('anyf'))
+            target = None          # which target must run
+            src = os.path.join(d, 'src')
+            if op == 'modify':
+                open(os.path.join(src, 'a.txt'), 'w').write('a%d\n' % seq); target = 'filt'
+            elif op == 'modify_sub':
+                open(os.path.join(src, 'sub', 'b.txt'), 'a').write('b%d\n' % seq); target = 'filt'
+            elif op == 'create':
+                open(os.path.join(src, 'new%d.txt' % seq), 'w').write('n\n'); target = 'filt'
+            elif op == 'rename_over':
+                tmp = os.path.join(d, 'elsewhere', 'a.%d' % seq)
+                open(tmp, 'w').write('a%d\n' % seq)
+                os.replace(tmp, os.path.join(src, 'a.txt')); target = 'filt'
+            elif op == 'move_in':
+                tmp = os.path.join(d, 'elsewhere', 'm%d.txt' % seq)
+                open(tmp, 'w').write('m\n')
+                os.replace(tmp, os.path.join(src, 'm%d.txt' % seq)); target = 'filt'
+            elif op == 'rename_away':
+                p = os.path.join(src, 'away%d.txt' % seq)
+                open(p, 'w').write('x\n')
+                wait_runs('filt', before[0] + 1, 5); quiet(0.6); before = (runs('filt'), runs('anyf'))
+                os.replace(p, os.path.join(src, 'away%d.bak' % seq)); target = 'filt'
+            elif op == 'delete':
+                p = os.path.join(src, 'del%d.txt' % seq)
+                open(p, 'w').write('x\n')
+                wait_runs('filt', before[0] + 1, 5); quiet(0.6); before = (runs('filt'), runs('anyf'))
+                os.remove(p); target = 'filt'
+            elif op == 'nonutf8_then_modify':
+                open(os.path.join(src.encode(), b'caf\xe9-\xff\xfe.dat'), 'w').write('x\n')
+                quiet(0.6); before = (runs('filt'), runs('anyf'))
+                open(os.path.join(src, 'a.txt'), 'w').write('a%d\n' % seq); target = 'filt'
+            elif op == 'any_modify':
+                open(os.path.join(d, 'any', 'x'), 'w').write('x%d\n' % seq); target = 'anyf'
+            elif op == 'any_create_tmpname_not':
+                open(os.path.join(d, 'any', 'y%d.swpx' % seq), 'w').write('y\n'); target = 'anyf'
+            elif op == 'any_nonutf8':
+                open(os.path.join((d + '/any').encode(), b'\xff\xfe%d' % seq), 'w').write('z\n'); target = 'anyf'
+            elif op == 'other_ext':
+                open(os.path.join(src, 'c.dat'), 'w').write('c%d\n' % seq)
+            elif op == 'dat_rename':
+                tmp = os.path.join(d, 'elsewhere', 'c.%d' % seq)
+                open(tmp, 'w').write('c\n'); os.replace(tmp, os.path.join(src, 'c.dat'))
+            elif op == 'tilde':
+                open(os.path.join(src, 'a.txt~'), 'w').write('t%d\n' % seq)
+            elif op == 'swp':
+                open(os.path.join(src, '.a.txt.swp'), 'w').write('s%d\n' % seq)
+            elif op == 'zinoma_dir':
+                os.makedirs(os.path.join(src, '.zinoma'), exist_ok=True)
+                open(os.path.join(src, '.zinoma', 'state%d.txt' % seq), 'w').write('z\n')
+            elif op == 'outside':
+                open(os.path.join(d, 'elsewhere', 'o%d.txt' % seq), 'w').write('o\n')
+            elif op == 'any_tilde':
+                open(os.path.join(d, 'any', 'x~'), 'w').write('t%d\n' % seq)
+            elif op == 'any_swp':
+                open(os.path.join(d, 'any', '.x.swx'), 'w').write('t%d\n' % seq)
+            elif op == 'any_zinoma':
+                os.makedirs(os.path.join(d, 'any', '.zinoma'), exist_ok=True)
+                open(os.path.join(d, 'any', '.zinoma', 'w%d' % seq), 'w').write('t\n')
+            log.append(op)
+            if target:
+                idx = 0 if target == 'filt' else 1
+                if not wait_runs(target, before[idx] + 1, 5):
+                    V.setdefault('C16', []).append('operation %r (#%d) on a declared input did not trigger %s within 5s (ops so far: %s)'
+                                                   % (op, seq, target, log))
+                    break
+                after = quiet(0.6)
+                other = 1 - idx
+                if after[other] != before[other]:
+                    V.setdefault('C16', []).append('operation %r (#%d) triggered the unrelated target too' % (op, seq))
+            else:
+                after = quiet(0.8)
+                if after != before:
+                    V.setdefault('C16', []).append('irrelevant operation %r (#%d) triggered a run: runs %s -> %s (ops so far: %s)'
+                                                   % (op, seq, before, after, log))
+        if proc.poll() is not None:
+            V.setdefault('C16', []).append('zinoma --watch exited with %s' % proc.returncode)
+        obs = {'ops': log, 'runs': (runs('filt'), runs('anyf'))}
+        return obs, V
+    finally:
+        try:
+            os.killpg(proc.pid, signal.SIGKILL)
+        except (ProcessLookupError, PermissionError):
+            pass
+        try:
+            proc.wait(timeout=5)
+        except Exception:
+            pass
+        errf.close()
+        vf.sh(['rm', '-rf', d])
